@@ -66,6 +66,12 @@ class SatCacheMixin:
         new_constraints = super().simplify()
         if len(new_constraints) > 0 and any(c is false() for c in new_constraints):
             self._cached_satness = False
+        if self._cached_unsat_core is not None:
+            # the cached core names constraints as they were when it was found; once simplification has rewritten one
+            # of them it would name constraints the solver neither holds nor was ever given
+            held = {c.hash() for c in new_constraints}
+            if any(c.hash() not in held for c in self._cached_unsat_core):
+                self._cached_unsat_core = None
         return new_constraints
 
     def satisfiable(self, extra_constraints=(), exact=None):
